@@ -688,10 +688,12 @@ def real_defaults():
 
 
 def scenario_term(sc, iter_queries):
+    """(per-file results, iter_intermediate_paths answers, hypotheses of C27_precedence hold, every config file as loaded)"""
     q = "[" + "; ".join("(%s, %s)" % (cpath(a), cpath(b)) for a, b in iter_queries) + "]" if iter_queries else "(@nil (path * path))"
     return ("(let f := %s in (map (zres defaults) (run text idc f %s %s %s), "
             "map (fun po => enc_paths (iter_intermediate_paths text f (fst po) (snd po))) %s, "
-            "fs_wfb text f && wfdb text (r_overrides text %s)))") % (
+            "fs_wfb text f && wfdb text (r_overrides text %s), "
+            "map (fun nc => enc_res (load_file text idc (fst nc) (snd nc))) (List.concat (map snd f))))") % (
         sc.coq_fs(), sc.coq_env(), sc.coq_root(), sc.coq_files(), q, sc.coq_root())
 
 
@@ -777,3 +779,895 @@ class Capture:
 
 def viol_sig(linted_file):
     return sorted((v.rule_code(), v.line_no, v.line_pos, v.desc()[:60]) for v in linted_file.violations)
+
+
+# ------------------------------------------------------------------------------------------------------------------------
+# translator: the real defaults and the loader's file-name order, compiled once (fail closed)
+
+GEN_FILE = os.path.join(coq.COQ, "generated", "Gen_c27_config.v")
+GEN_IMPORT = "From SFGen Require Import Gen_c27_config."
+
+
+def extract_filename_options():
+    repo = os.environ.get("VERIF_REPO", "/repo")
+    tree = ast.parse(open(os.path.join(repo, "src/sqlfluff/core/config/loader.py")).read())
+    for node in ast.walk(tree):
+        if isinstance(node, ast.FunctionDef) and node.name == "load_config_at_path":
+            for st in ast.walk(node):
+                if isinstance(st, (ast.Assign, ast.AnnAssign)):
+                    tgt = st.targets[0] if isinstance(st, ast.Assign) else st.target
+                    if isinstance(tgt, ast.Name) and tgt.id == "filename_options":
+                        return [ast.literal_eval(e) for e in st.value.elts]
+    raise RuntimeError("filename_options not found in load_config_at_path")
+
+
+def generate(ctx):
+    opts = extract_filename_options()
+    dtexts = enc_tree(real_defaults())
+    src = ("(* generated by harness/props/c27.py from /repo -- do not edit *)\n"
+           "From SF Require Import Base.Prelude Model.Config.\n" + COQ_DEFS + COQ_DEFS2 +
+           "Definition defaults : dict text := %s.\n" % cdict(dtexts) +
+           "Definition gen_filename_options : list text := %s.\n" % ("[" + "; ".join(ctext(o) for o in opts) + "]") +
+           "(* the order in loader.load_config_at_path is the order the model (and C27_precedence) uses *)\n"
+           "Lemma gen_filename_options_eq : gen_filename_options = filename_options.\nProof. vm_compute. reflexivity. Qed.\n"
+           "Lemma gen_defaults_wf : wfdb text defaults = true.\nProof. vm_compute. reflexivity. Qed.\n")
+    coq.write_if_changed(GEN_FILE, src)
+
+
+GENERATORS = [generate]
+COQ_TARGETS = ["generated/Gen_c27_config.vo", "theories/Properties/C27.vo"]
+
+
+class Batch:
+    """collects Coq terms, evaluates them in at most `jobs` coqc runs, hands the parsed values back by index"""
+
+    def __init__(self):
+        self.terms = []
+        self.vals = None
+
+    def add(self, term):
+        self.terms.append(term)
+        return len(self.terms) - 1
+
+    def run(self, jobs=4):
+        from concurrent.futures import ThreadPoolExecutor
+        n = len(self.terms)
+        if not n:
+            self.vals = []
+            return
+        # spread by size so that the chunks take about the same time
+        order = sorted(range(n), key=lambda i: -len(self.terms[i]))
+        chunks = [[] for _ in range(min(jobs, n))]
+        sizes = [0] * len(chunks)
+        for i in order:
+            j = sizes.index(min(sizes))
+            chunks[j].append(i)
+            sizes[j] += len(self.terms[i]) + 2000
+        def one(idx):
+            return coq.eval_terms(["Model.Config", GEN_IMPORT], [self.terms[i] for i in idx], defs="From Coq Require Import String Ascii.\n", timeout=1500)
+        with ThreadPoolExecutor(max_workers=len(chunks)) as ex:
+            parts = list(ex.map(one, chunks))
+        self.vals = [None] * n
+        for idx, vs in zip(chunks, parts):
+            for i, v in zip(idx, vs):
+                self.vals[i] = v
+
+    def __getitem__(self, i):
+        return self.vals[i]
+
+
+# ------------------------------------------------------------------------------------------------------------------------
+# small-scope units
+
+def small_dicts():
+    """64 dicts over keys a, b (depth <= 2, leaves "1"/"2") plus 16 with the keys in the other order"""
+    opts = [None, "1", "2", {}, {"a": "1"}, {"a": "2"}, {"b": "1"}, {"a": {}}]
+    out = []
+    for oa in opts:
+        for ob in opts:
+            d = {}
+            if oa is not None:
+                d["a"] = copy.deepcopy(oa)
+            if ob is not None:
+                d["b"] = copy.deepcopy(ob)
+            out.append(d)
+    for oa, ob in [(1, 3), (3, 1), (4, 6), (6, 4), (7, 2), (2, 7), (4, 4), (5, 4), (3, 3), (1, 2), (6, 6), (7, 7), (4, 1), (1, 4), (5, 6), (6, 5)]:
+        out.append({"b": copy.deepcopy(opts[ob]), "a": copy.deepcopy(opts[oa])})
+    return out
+
+
+def py_tree(d):
+    return {k: (py_tree(v) if isinstance(v, dict) else dec(v)) for k, v in d.items()}
+
+
+def kinds(d, prefix=()):
+    """every path of a nested dict -> 'section' or ('value', v)"""
+    out = {}
+    for k, v in d.items():
+        if isinstance(v, dict):
+            out[prefix + (k,)] = "section"
+            out.update(kinds(v, prefix + (k,)))
+        else:
+            out[prefix + (k,)] = ("value", v)
+    return out
+
+
+def try_call(f, *a):
+    try:
+        return ("ok", f(*a))
+    except Exception as e:  # noqa: BLE001
+        return ("err", exc_kind(e))
+
+
+def same_outcome(model, impl, convert=lambda t: t, ordered=True):
+    """model: ("ok", text tree)|("err", kind); impl: ("ok", py tree)|("err", kind)"""
+    if model[0] != impl[0]:
+        return False
+    if model[0] == "err":
+        return model[1] == impl[1]
+    return tree_eq(convert(model[1]), impl[1], ordered)
+
+
+ALPHA = ["a", ":", " ", "\\", "[", "]", "{", "}", "C"]
+ALPHA_LINES = ["a", "\n", "\r", "\x0b", "\x85", " "]
+ALPHA_STRIP = ["a", " ", "\t", "\xa0", "　"]
+
+
+def all_strings(alpha, n):
+    """same order as the Coq enumeration: strings of length exactly n"""
+    cur = [""]
+    for _ in range(n):
+        cur = [c + s for s in cur for c in alpha]
+    return cur
+
+
+COQ_ENUM = ("(fix go (n : nat) : list text := match n with O => [[]] | S m => "
+            "flat_map (fun s => map (fun c => c :: s) %s) (go m) end)")
+
+
+def calpha(alpha):
+    return "[" + ";".join(str(ord(c)) for c in alpha) + "]%N"
+
+
+def units_prepare(ctx, B):
+    """adds the Coq terms of the small-scope units to the batch; returns a closure that compares after B.run()"""
+    from sqlfluff.core import FluffConfig
+    from sqlfluff.core.helpers.dict import iter_records_from_nested_dict, nested_combine, records_to_nested_dict
+    from sqlfluff.core.helpers.string import split_colon_separated_string
+    quick = ctx.tier == "quick"
+    rng = ctx.rng
+    ds = small_dicts()
+    pds = [py_tree(d) for d in ds]
+    n = len(ds)
+    dsl = "[" + "; ".join(cdict(d) for d in ds) + "]"
+    h = {}
+    h["pairs"] = B.add("(let ds := %s in map (fun x => map (fun y => enc_res (nested_combine text [x; y])) ds) ds)" % dsl)
+    ntr = 600 if quick else 6000
+    tuples = [tuple(rng.randrange(n) for _ in range(rng.choice([3, 3, 4]))) for _ in range(ntr)]
+    h["tuples"] = []
+    for chunk in coq.chunked(tuples, 150):
+        lit = "[" + "; ".join("[" + ";".join(str(i) for i in t) + "]" for t in chunk) + "]"
+        h["tuples"].append(B.add("(let ds := %s in map (fun t => enc_res (nested_combine text (map (fun i => nth i ds []) t))) %s)" % (dsl, lit)))
+    paths = [p for k in (2, 3) for p in itertools.product("ab", repeat=k)]
+    pl = "[" + "; ".join(cpath(p) for p in paths) + "]"
+    h["setv"] = B.add('(let ds := %s in map (fun d => map (fun p => enc_res (set_value text p (lit "9") d)) %s) ds)' % (dsl, pl))
+    h["iter"] = B.add("(map (fun d => enc_recs (iter_records text d)) %s)" % dsl)
+    nrec = 300 if quick else 3000
+    recsets = []
+    for _ in range(nrec):
+        recsets.append([(tuple(rng.choice("ab") for _ in range(rng.choice([0, 1, 1, 2, 2, 3]))), rng.choice("12")) for _ in range(rng.choice([1, 2, 3, 4]))])
+    h["recs"] = []
+    for chunk in coq.chunked(recsets, 150):
+        lit = "[" + "; ".join("[" + "; ".join("(%s, %s)" % (cpath(k), ctext(v)) for k, v in rs) + "]" for rs in chunk) + "]"
+        h["recs"].append(B.add("(map (fun rs => enc_res (records_to_nested_dict text rs)) %s)" % lit))
+    maxlen = 4 if quick else 5
+    h["split"] = [B.add("(map (fun s => match split_colon_separated_string s with Some (ks, v) => Some (map enc_text ks, enc_text v) | None => None end) (%s %d))"
+                        % (COQ_ENUM % calpha(ALPHA), k)) for k in range(maxlen + 1)]
+    h["lines"] = [B.add("(map (fun s => map enc_text (splitlines s)) (%s %d))" % (COQ_ENUM % calpha(ALPHA_LINES), k)) for k in range(6)]
+    h["strip"] = [B.add("(map (fun s => enc_text (strip s)) (%s %d))" % (COQ_ENUM % calpha(ALPHA_STRIP), k)) for k in range(5)]
+    h["space"] = B.add("(filter (fun c => is_space (N.of_nat c)) (seq 0 12600), filter (fun c => is_linebreak (N.of_nat c)) (seq 0 12600))")
+    # inline scanner on a fixed base config
+    base = {"core": {"dialect": "ansi", "max_line_length": "80", "rules": "all", "exclude_rules": "None", "ignore": "None", "warnings": "None",
+                     "verbose": "0", "use_rust_parser": "auto", "use_rust_rules": "False"},
+            "indentation": {"tab_space_size": "4"}, "rules": {"capitalisation.keywords": {"capitalisation_policy": "consistent"}},
+            "templater": {"jinja": {"context": {}}}, "xsec": {"ya": "1", "yd": {"ze": "2"}}}
+    raws = []
+    for line in INLINE_MALFORMED:
+        raws.append(line + "\n")
+    for k, vals in INLINE_GOOD:
+        for v in vals:
+            raws.append("-- sqlfluff:%s:%s\nselect 1\n" % (k, v))
+            raws.append("select 1;\n--sqlfluff:%s : %s  \n" % (k, v))
+    for _ in range(100 if quick else 1200):
+        sep = rng.choice(LINESEPS)
+        raws.append("".join(l + sep for l in gen_inline(rng, True)) + rng.choice(["", "select 1", "select 1\n"]))
+    h["inline"] = []
+    for chunk in coq.chunked(raws, 100):
+        lit = "[" + "; ".join(ctext(r) for r in chunk) + "]"
+        h["inline"].append(B.add("(let base := %s in map (fun raw => enc_res (process_raw_file_for_config text idc base raw)) %s)" % (cdict(base), lit)))
+    h["fnopts"] = B.add("(map enc_text filename_options)")
+
+    def compare():
+        def bad(what, detail):
+            ctx.broken_obligation("correspondence %s" % what, detail)
+        # -- nested_combine: all pairs
+        okp = True
+        for i, row in enumerate(B[h["pairs"]]):
+            for j, r in enumerate(row):
+                impl = try_call(nested_combine, pds[i], pds[j])
+                m = dec_res(r)
+                nt = impl[0] == "err" or any(isinstance(v, dict) for v in impl[1].values())
+                ctx.case(("nc2", i, j) if nt else None, bucket="nested_combine-pair")
+                if okp and not same_outcome(m, impl, py_tree):
+                    okp = False
+                    bad("Model.Config.nested_combine vs helpers.dict.nested_combine", {"input": [pds[i], pds[j]], "model": m, "impl": impl})
+                # monitor on the real function: rightmost wins (the section/value observation of the last dict that has the path)
+                if impl[0] == "ok":
+                    ka, kb, kr = kinds(pds[i]), kinds(pds[j]), kinds(impl[1])
+                    for p in set(ka) | set(kb) | set(kr):
+                        want = kb.get(p, ka.get(p))
+                        if kr.get(p) != want:
+                            ctx.violation("combine-rightmost", "nested_combine: a path does not show the last dict that defines it",
+                                          {"input": [pds[i], pds[j]], "path": list(p), "got": repr(kr.get(p)), "want": repr(want)})
+        ctx.coverage_extra["nested_combine_pairs_exhaustive"] = n * n
+        # -- tuples; staged == flat whenever flat succeeds (combine_assoc on the real function)
+        flat_results = []
+        for hh in h["tuples"]:
+            flat_results += B[hh]
+        okt = True
+        for t, r in zip(tuples, flat_results):
+            args = [pds[i] for i in t]
+            impl = try_call(nested_combine, *args)
+            ctx.case(("nc", t), bucket="nested_combine-%d" % len(t))
+            if okt and not same_outcome(dec_res(r), impl, py_tree):
+                okt = False
+                bad("Model.Config.nested_combine vs helpers.dict.nested_combine", {"input": args, "model": dec_res(r), "impl": impl})
+            if impl[0] == "ok":
+                for cut in range(1, len(args)):
+                    for end in range(cut + 1, len(args) + 1):
+                        mid = try_call(nested_combine, *args[cut:end])
+                        staged = try_call(nested_combine, *(args[:cut] + [mid[1]] + args[end:])) if mid[0] == "ok" else mid
+                        if staged[0] != "ok" or not tree_eq(staged[1], impl[1], True):
+                            ctx.violation("combine-assoc", "staged nested_combine differs from the flat combination although the flat one succeeds",
+                                          {"input": args, "stage": [cut, end], "flat": impl, "staged": staged})
+        # -- set_value
+        cfg = FluffConfig(overrides={"dialect": "ansi"})
+        oks = True
+        for i, row in enumerate(B[h["setv"]]):
+            for p, r in zip(paths, row):
+                cfg._configs = copy.deepcopy(pds[i])
+                def call():
+                    cfg.set_value(list(p), "9")
+                    return cfg._configs
+                impl = try_call(call)
+                ctx.case(("sv", i, p) if impl[0] == "err" or len(p) == 3 else None, bucket="set_value")
+                if oks and not same_outcome(dec_res(r), impl, py_tree):
+                    oks = False
+                    bad("Model.Config.set_value vs FluffConfig.set_value", {"input": {"dict": pds[i], "path": list(p)}, "model": dec_res(r), "impl": impl})
+        # -- iter_records / records_to_nested_dict
+        for i, r in enumerate(B[h["iter"]]):
+            impl = [(tuple(k), v) for k, v in iter_records_from_nested_dict(pds[i])]
+            m = [(tuple(dec_ot(x) for x in (ks if isinstance(ks, list) else [])), dec(dec_ot(v))) for ks, v in r]
+            ctx.case(None, bucket="iter_records")
+            if m != impl:
+                bad("Model.Config.iter_records vs iter_records_from_nested_dict", {"input": pds[i], "model": m, "impl": impl})
+                break
+        rr = []
+        for hh in h["recs"]:
+            rr += B[hh]
+        for rs, r in zip(recsets, rr):
+            impl = try_call(records_to_nested_dict, [(k, dec(v)) for k, v in rs])
+            ctx.case(("rec", repr(rs)) if impl[0] == "err" or len(rs) > 2 else None, bucket="records_to_nested_dict")
+            if not same_outcome(dec_res(r), impl, py_tree):
+                bad("Model.Config.records_to_nested_dict vs helpers.dict.records_to_nested_dict", {"input": rs, "model": dec_res(r), "impl": impl})
+                break
+        # -- strings
+        done = False
+        for k, hh in enumerate(h["split"]):
+            for s, r in zip(all_strings(ALPHA, k), B[hh]):
+                impl = split_colon_separated_string(s)
+                m = None if r is None else (tuple(dec_ot(x) for x in r[1][0]), dec_ot(r[1][1]))
+                ctx.case(("split", s) if ":" in s else None, bucket="split_colon")
+                if not done and m != impl:
+                    done = True
+                    bad("Model.Config.split_colon_separated_string vs helpers.string.split_colon_separated_string", {"input": s, "model": m, "impl": impl})
+        ctx.coverage_extra["split_colon_exhaustive_len"] = maxlen
+        done = False
+        for k, hh in enumerate(h["lines"]):
+            for s, r in zip(all_strings(ALPHA_LINES, k), B[hh]):
+                ctx.case(None, bucket="splitlines")
+                if not done and [dec_ot(x) for x in r] != s.splitlines():
+                    done = True
+                    bad("Model.Config.splitlines vs str.splitlines", {"input": s, "model": [dec_ot(x) for x in r], "impl": s.splitlines()})
+        done = False
+        for k, hh in enumerate(h["strip"]):
+            for s, r in zip(all_strings(ALPHA_STRIP, k), B[hh]):
+                ctx.case(None, bucket="strip")
+                if not done and dec_ot(r) != s.strip():
+                    done = True
+                    bad("Model.Config.strip vs str.strip", {"input": s, "model": dec_ot(r), "impl": s.strip()})
+        sp, lb = B[h["space"]]
+        py_sp = [c for c in range(0x110000) if chr(c).isspace()]
+        py_lb = [c for c in range(0x110000) if not (0xD800 <= c < 0xE000) and len(("a" + chr(c) + "b").splitlines()) == 2]
+        ctx.case("isspace-table", bucket="tables")
+        if list(sp) != py_sp:
+            bad("Model.Config.is_space vs str.isspace", {"model": list(sp), "impl": py_sp})
+        if list(lb) != py_lb:
+            bad("Model.Config.is_linebreak vs str.splitlines", {"model": list(lb), "impl": py_lb})
+        # -- inline scanner
+        ri = []
+        for hh in h["inline"]:
+            ri += B[hh]
+        pbase = py_tree(base)
+        done = False
+        for raw, r in zip(raws, ri):
+            cfg._configs = copy.deepcopy(pbase)
+            def call():
+                cfg.process_raw_file_for_config(raw, "unit.sql")
+                return norm_impl(cfg._configs)
+            impl = try_call(call)
+            m = dec_res(r)
+            nt = impl[0] == "err" or (impl[0] == "ok" and not tree_eq(impl[1], model_to_py(base), True))
+            ctx.case(("inl", raw) if nt else None, bucket="inline-unit", sample={"raw": raw, "impl": impl[0]} if nt and len(raw) % 17 == 0 else None)
+            if not done and not same_outcome(m, impl, model_to_py):
+                done = True
+                bad("Model.Config.process_raw_file_for_config vs FluffConfig.process_raw_file_for_config",
+                    {"input": raw, "model": m if m[0] == "err" else first_diff(model_to_py(m[1]), impl[1]) if impl[0] == "ok" else "ok", "impl": impl[0:2] if impl[0] == "err" else "ok"})
+        # -- the file-name order (also a build obligation: gen_filename_options_eq)
+        fo = [dec_ot(x) for x in B[h["fnopts"]]]
+        ctx.case("filename_options", bucket="tables")
+        if fo != extract_filename_options():
+            bad("Model.Config.filename_options vs loader.load_config_at_path.filename_options", {"model": fo, "impl": extract_filename_options()})
+    return compare
+
+
+# ------------------------------------------------------------------------------------------------------------------------
+# monitor 1: the precedence ladder, winner predicted by an oracle written from the property text (no Coq involved)
+
+LADDER = [  # (layer name, directory (relative to the tree), file name or None) lowest precedence first
+    ("user-appdir", ("xdg", "sqlfluff"), ".sqlfluff"),
+    ("home", ("home",), ".sqlfluff"),
+    ("between-home-and-cwd", ("home", "w"), ".sqlfluff"),
+    ("cwd/setup.cfg", ("home", "w", "proj"), "setup.cfg"),
+    ("cwd/.sqlfluff", ("home", "w", "proj"), ".sqlfluff"),
+    ("cwd/pyproject.toml", ("home", "w", "proj"), "pyproject.toml"),
+    ("subdir", ("home", "w", "proj", "a"), ".sqlfluff"),
+    ("filedir/tox.ini", ("home", "w", "proj", "a", "b"), "tox.ini"),
+    ("filedir/pyproject.toml", ("home", "w", "proj", "a", "b"), "pyproject.toml"),
+    ("extra-config", ("cfg",), "extra.cfg"),
+    ("cli-override", None, None),
+    ("inline", None, None),
+]
+LADDER_APPLIES_TO_SIBLING = [True, True, True, True, True, True, False, False, False, True, True, False]
+
+
+def ladder(ctx, root):
+    from sqlfluff.core import FluffConfig, Linter
+    rng = ctx.rng
+    nl = len(LADDER)
+    for _n, d, _f in LADDER:
+        if d is not None:
+            os.makedirs(os.path.join(root, *d), exist_ok=True)
+    os.makedirs(os.path.join(root, "home", "w", "proj", "c"), exist_ok=True)
+    fpath = os.path.join(root, "home", "w", "proj", "a", "b", "f.sql")
+    gpath = os.path.join(root, "home", "w", "proj", "c", "g.sql")
+    subsets = [(1 << i, 1 << ((i + 5) % nl)) for i in range(nl)]
+    subsets += [(((1 << nl) - 1) & ~(1 << i), ((1 << nl) - 1)) for i in range(nl)] + [(0, 0), ((1 << nl) - 1, 0)]
+    if ctx.tier == "quick":
+        subsets += [(rng.randrange(1 << nl), rng.randrange(1 << nl)) for _ in range(220)]
+    else:
+        subsets += [(s, rng.randrange(1 << nl)) for s in range(1 << nl)]
+    keys = [("core", "max_line_length", 100), ("indentation", "tab_space_size", 20)]   # value of layer i = base + i
+    defaults = {"max_line_length": 80, "tab_space_size": 4}
+    with Redirect(os.path.join(root, "home"), os.path.join(root, "xdg"), os.path.join(root, "home", "w", "proj")):
+        for s1, s2 in subsets:
+            present = [s1, s2]
+            for i, (_n, d, fname) in enumerate(LADDER):
+                if d is None:
+                    continue
+                path = os.path.join(root, *d, fname)
+                secs = {}
+                for (sec, opt, base), s in zip(keys, present):
+                    if s >> i & 1:
+                        secs.setdefault(sec, []).append((opt, base + i))
+                if os.path.exists(path):
+                    os.remove(path)
+                if secs:
+                    with open(path, "w") as f:
+                        if fname == "pyproject.toml":
+                            for sec, items in secs.items():
+                                f.write("[tool.sqlfluff.%s]\n" % sec + "".join("%s = %d\n" % kv for kv in items))
+                        else:
+                            for sec, items in secs.items():
+                                f.write("[sqlfluff%s]\n" % ("" if sec == "core" else ":" + sec) + "".join("%s = %d\n" % kv for kv in items))
+            inl = "".join("-- sqlfluff:%s%s:%d\n" % ("" if sec == "core" else sec + ":", opt, base + nl - 1)
+                          for (sec, opt, base), s in zip(keys, present) if s >> (nl - 1) & 1)
+            with open(fpath, "w") as f:
+                f.write(inl + "select 1\n")
+            with open(gpath, "w") as f:
+                f.write("select 2\n")
+            ov = {"dialect": "ansi"}
+            if s1 >> (nl - 2) & 1:
+                ov["max_line_length"] = keys[0][2] + nl - 2
+            # overrides only reach `core`: tab_space_size has no override layer
+            has_extra = any(s >> 9 & 1 for s in present)
+            kw = {"overrides": ov}
+            if has_extra:
+                kw["extra_config_path"] = os.path.join(root, "cfg", "extra.cfg")
+            clear_caches()
+            order = [("f", fpath), ("g", gpath)]
+            if rng.random() < 0.5:
+                order.reverse()
+            got = {}
+            root_cfg = FluffConfig.from_root(**kw)
+            for who, pth in order:
+                rel = os.path.relpath(pth) if rng.random() < 0.5 else pth
+                _raw, cfg, _e = Linter.load_raw_file_and_config(rel, root_cfg)
+                got[who] = (cfg.get("max_line_length"), cfg.get("tab_space_size", section="indentation"))
+            for who, applies in (("f", [True] * nl), ("g", LADDER_APPLIES_TO_SIBLING)):
+                want = []
+                for (sec, opt, base), s in zip(keys, present):
+                    live = [i for i in range(nl) if s >> i & 1 and applies[i] and not (opt == "tab_space_size" and i == nl - 2)]
+                    want.append(base + max(live) if live else defaults[opt])
+                ctx.case(("ladder", s1, s2, who), bucket="ladder", sample={"layers_present(max_line_length)": [LADDER[i][0] for i in range(nl) if s1 >> i & 1],
+                                                                             "file": who, "effective": got[who][0]} if (s1 + s2) % 97 == 0 else None)
+                if tuple(want) != got[who]:
+                    winner = [max([i for i in range(nl) if s >> i & 1 and applies[i]] or [-1]) for s in present]
+                    leak = who == "g" and any(g in (base + i for i in range(nl) if not LADDER_APPLIES_TO_SIBLING[i]) for g, (_s, _o, base) in zip(got[who], keys))
+                    ctx.violation("isolation-leak" if leak else "precedence-ladder",
+                                  ("a setting of another file's nested/inline config reached this file" if leak else
+                                   "the effective value does not come from the highest-precedence layer that sets it"),
+                                  {"input": {"layers(max_line_length)": [LADDER[i][0] for i in range(nl) if s1 >> i & 1],
+                                             "layers(tab_space_size)": [LADDER[i][0] for i in range(nl) if s2 >> i & 1], "file": who, "order": [w for w, _ in order]},
+                                   "got": list(got[who]), "want": want},
+                                  attrs={"file": who, "expected_winner": [LADDER[w][0] if w >= 0 else "defaults" for w in winner][0]})
+    ctx.coverage_extra["ladder_subsets"] = len(subsets)
+
+
+# ------------------------------------------------------------------------------------------------------------------------
+# fixed scenarios (always run): the documented order, the refuted "staged = flat", section/value conflicts, odd layouts
+
+def fixed_scenarios(rng):
+    out = []
+
+    def base(label):
+        sc = Scenario()
+        sc.label = label
+        sc.mkdir(sc.home)
+        sc.mkdir(sc.cwd)
+        return sc
+    S = lambda sec, opt, v: (tuple(sec.split(":")), opt, v)  # noqa: E731
+    # every file name in one directory
+    sc = base("all-filenames-one-dir")
+    for i, fn in enumerate(FILENAMES):
+        sc.add_file(rng, sc.cwd, fn, [S("core", "max_line_length", str(50 + 10 * i)), S("core", "dialect", "ansi")] + ([S("indentation", "tab_space_size", "2")] if i < 3 else []))
+    sc.sql = [(sc.cwd + ("q.sql",), "select 1\n")]
+    out.append(sc)
+    # Properties/C27.v C27_staged_equals_flat_unconditionally_refuted, replayed: the stage (one directory) succeeds
+    sc = base("stage-masks-conflict")
+    sc.add_file(rng, sc.home, ".sqlfluff", [S("core", "dialect", "ansi"), S("xsec:ya", "zb", "1")])
+    sc.add_file(rng, sc.cwd, "setup.cfg", [S("xsec", "ya", "5")])
+    sc.add_file(rng, sc.cwd, ".sqlfluff", [S("xsec:ya", "zc", "2")])
+    sc.sql = [(sc.cwd + ("q.sql",), "select 1\n")]
+    out.append(sc)
+    # the flat order raises where no stage hides it
+    sc = base("value-over-section-raises")
+    sc.add_file(rng, sc.home, ".sqlfluff", [S("core", "dialect", "ansi"), S("xsec:ya", "zb", "1")])
+    sc.add_file(rng, sc.cwd, ".sqlfluff", [S("xsec", "ya", "5")])
+    sc.sql = [(sc.cwd + ("q.sql",), "select 1\n"), (sc.home + ("r.sql",), "-- sqlfluff:xsec:ya:zb:wc:3\nselect 1\n"), (sc.home + ("s.sql",), "-- sqlfluff:xsec:ya:7\nselect 1\n")]
+    out.append(sc)
+    # section over value: overwrite
+    sc = base("section-over-value-overwrites")
+    sc.add_file(rng, sc.home, ".sqlfluff", [S("core", "dialect", "ansi"), S("xsec", "ya", "5")])
+    sc.add_file(rng, sc.cwd, ".sqlfluff", [S("xsec:ya", "zb", "1")])
+    sc.sql = [(sc.cwd + ("q.sql",), "select 1\n"), (sc.home + ("r.sql",), "-- sqlfluff:xsec:ya:zb:3\nselect 1\n")]
+    out.append(sc)
+    # nested + sibling + inline: the isolation picture
+    sc = base("nested-sibling-inline")
+    sc.add_file(rng, sc.cwd, ".sqlfluff", [S("core", "dialect", "ansi"), S("core", "max_line_length", "60"), S("core", "rules", "LT05,CP01")])
+    sc.add_file(rng, sc.cwd + ("a",), ".sqlfluff", [S("core", "max_line_length", "100"), S("rules:capitalisation.keywords", "capitalisation_policy", "upper")])
+    sc.add_file(rng, sc.cwd + ("c",), "pyproject.toml", [S("core", "max_line_length", "50"), S("rules:capitalisation.keywords", "capitalisation_policy", "lower")])
+    sc.mkdir(sc.cwd + ("a", "b"))
+    sc.sql = [(sc.cwd + ("a", "x.sql"), SQL_BODIES[1]), (sc.cwd + ("c", "y.sql"), SQL_BODIES[1]),
+              (sc.cwd + ("z.sql",), "-- sqlfluff:max_line_length:70\n-- sqlfluff:rules:LT05\n" + SQL_BODIES[1]), (sc.cwd + ("w.sql",), SQL_BODIES[1]),
+              (sc.cwd + ("a", "b", "v.sql"), "--sqlfluff:rules:capitalisation.keywords:capitalisation_policy:lower\n" + SQL_BODIES[3])]
+    out.append(sc)
+    # user config in ~/.config/sqlfluff wins over $XDG_CONFIG_HOME/sqlfluff; extra + overrides; ignore_local_config
+    for ign in (False, True):
+        sc = base("appdir-extra-overrides" + ("-ignore-local" if ign else ""))
+        sc.xdg = ("xdg",)
+        sc.add_file(rng, ("xdg", "sqlfluff"), ".sqlfluff", [S("core", "verbose", "2"), S("core", "max_line_length", "50")])
+        sc.add_file(rng, sc.home + (".config", "sqlfluff"), ".sqlfluff", [S("core", "verbose", "1")])
+        sc.add_file(rng, sc.home, ".sqlfluff", [S("core", "dialect", "postgres"), S("core", "max_line_length", "60")])
+        sc.add_file(rng, sc.cwd, "tox.ini", [S("core", "max_line_length", "70")], with_foreign=True)
+        sc.add_file(rng, ("cfg",), "my.toml", [S("core", "dialect", "ansi"), S("indentation", "tab_space_size", "8")])
+        sc.extra = ("cfg", "my.toml")
+        sc.overrides = {"exclude_rules": "LT01,LT02", "nocolor": "True"}
+        sc.ignore_local = ign
+        sc.sql = [(sc.cwd + ("q.sql",), "select 1\n")]
+        out.append(sc)
+    # file outside the working directory; working directory outside home
+    sc = base("file-outside-cwd")
+    sc.cwd = ("srv", "proj", "app")
+    sc.mkdir(sc.cwd)
+    sc.add_file(rng, (), ".sqlfluff", [S("core", "verbose", "2")])
+    sc.add_file(rng, ("srv",), ".sqlfluff", [S("core", "dialect", "ansi"), S("core", "max_line_length", "50")])
+    sc.add_file(rng, ("srv", "proj"), ".sqlfluff", [S("core", "max_line_length", "60")])
+    sc.add_file(rng, sc.cwd, ".sqlfluff", [S("core", "max_line_length", "70")])
+    sc.add_file(rng, ("srv", "proj", "lib"), ".sqlfluff", [S("indentation", "tab_space_size", "2")])
+    sc.add_file(rng, ("other",), ".sqlfluff", [S("core", "dialect", "tsql")])
+    sc.sql = [(("srv", "proj", "lib", "q.sql"), "select 1\n"), (sc.cwd + ("r.sql",), "select 1\n"), (("other", "s.sql"), "select 1\n")]
+    out.append(sc)
+    return out
+
+
+def covers_two_layers(sc, p):
+    """non-triviality: some (section, option) is set by >= 2 config files on the chain of this sql file (or by a file and inline)"""
+    d = p[:-1]
+    seen = {}
+    for dd, files in sc.dirs.items():
+        if dd == d[:len(dd)] or dd[:1] in (("xdg",), ("cfg",)) or ".config" in dd:
+            for fname, (kind, text, _v) in files.items():
+                for line in text.splitlines():
+                    if "=" in line and not line.startswith("["):
+                        k = line.split("=")[0].strip()
+                        seen[k] = seen.get(k, 0) + 1
+    return any(v >= 2 for v in seen.values())
+
+
+def run(ctx, coq_ok):
+    import logging
+    logging.getLogger("sqlfluff").setLevel(logging.CRITICAL)
+    base_tmp = tempfile.mkdtemp(prefix="verif-c27-", dir=os.environ.get("TMPDIR") or "/var/tmp")
+    try:
+        _run(ctx, coq_ok, base_tmp)
+    finally:
+        shutil.rmtree(base_tmp, ignore_errors=True)
+
+
+def _run(ctx, coq_ok, base_tmp):
+    import threading
+    from sqlfluff.core import FluffConfig, Linter
+    from sqlfluff.core.config.ini import load_ini_string
+    from sqlfluff.core.config.toml import load_toml_file_config
+    from sqlfluff.core.helpers.file import iter_intermediate_paths
+    from pathlib import Path
+    quick = ctx.tier == "quick"
+    rng = ctx.rng
+    dflt_texts = enc_tree(real_defaults())
+
+    # ---- scenarios: generate, write, build the Coq terms
+    scs = fixed_scenarios(rng)
+    n_rand = 90 if quick else 1100
+    for i in range(n_rand):
+        scs.append(gen_scenario(rng, malformed=(i % 4 == 3), conflicts=(i % 3 != 0)))
+    B = Batch()
+    compare_units = units_prepare(ctx, B) if coq_ok else None
+    infos = []
+    for si, sc in enumerate(scs):
+        root = os.path.join(base_tmp, "s%d" % si)
+        sc.write(root)
+        # the texts the linter reads (universal newlines) are model inputs too
+        as_read = [read_as_linter(os.path.join(root, *p)) for p, _t in sc.sql]
+        mfiles = list(sc.sql) + [(p, ar) for (p, t), ar in zip(sc.sql, as_read) if ar != t]
+        queries = [(p, o) for p, _t in sc.sql for o in (sc.home, sc.cwd)]
+        cfgfiles = [(d, fname) for d, files in sc.dirs.items() for fname in files]
+        info = {"root": root, "as_read": as_read, "mfiles": mfiles, "queries": queries, "cfgfiles": cfgfiles}
+        if coq_ok:
+            sc2 = copy.copy(sc)
+            sc2.sql = mfiles
+            info["h"] = B.add(scenario_term(sc2, queries))
+        infos.append(info)
+    coq_thread = None
+    coq_err = []
+    if coq_ok:
+        def go():
+            t0 = coq.now()
+            try:
+                B.run(jobs=3)
+            except Exception as e:  # noqa: BLE001
+                coq_err.append(e)
+            ctx.coverage_extra["t_coq_eval_s"] = round(coq.now() - t0, 1)
+        coq_thread = threading.Thread(target=go)
+        coq_thread.start()
+
+    try:
+        # ---- the implementation on every scenario
+        t_impl0 = coq.now()
+        n_hist = 0
+        max_hist = 14 if quick else 140
+        for si, (sc, info) in enumerate(zip(scs, infos)):
+            root = info["root"]
+            with Redirect(os.path.join(root, *sc.home), None if sc.xdg is None else os.path.join(root, *sc.xdg), os.path.join(root, *sc.cwd)):
+                clear_caches()
+                info["direct"] = impl_direct(sc, root, rng)
+                info["iters"] = []
+                for p, o in info["queries"]:
+                    got = [os.path.relpath(str(x), root) for x in iter_intermediate_paths(Path(spell(root, sc.cwd, p, rng)), Path(os.path.join(root, *o)))]
+                    info["iters"].append([tuple(x.split(os.sep)) if x != "." else () for x in got])
+                info["loaded"] = []
+                for d, fname in info["cfgfiles"]:
+                    kind, text, _v = sc.dirs[d][fname]
+                    if fname == "pyproject.toml":
+                        info["loaded"].append(try_call(load_toml_file_config, os.path.join(root, *d, fname)))
+                    else:
+                        info["loaded"].append(try_call(load_ini_string, text))
+                # through the linter's own loader, warm caches, as-read text
+                info["via_linter"] = None
+                kw = impl_kwargs(sc, root, rng)
+                try:
+                    root_cfg = FluffConfig.from_root(require_dialect=False, **kw)
+                except Exception as e:  # noqa: BLE001
+                    root_cfg = None
+                    info["root_err"] = exc_kind(e)
+                if root_cfg is not None:
+                    vl = []
+                    for p, _t in sc.sql:
+                        def call(p=p):
+                            _raw, cfg, _enc = Linter.load_raw_file_and_config(spell(root, sc.cwd, p, rng), root_cfg)
+                            return norm_impl(cfg._configs)
+                        r = try_call(call)
+                        if r[0] == "err" and r[1] == "ERuntime":
+                            # SQLFluffUserError "No dialect was specified" is the linter's requirement, not the config stack's
+                            d0 = info["direct"][len(vl)]
+                            if d0[0] == "ok" and d0[2].get("dialect") is None:
+                                r = ("nodialect",)
+                        vl.append(r)
+                    info["via_linter"] = vl
+                # histories
+                eligible = (root_cfg is not None and root_cfg.get("dialect") is not None and not sc.decoys
+                            and all(d0[0] == "ok" and d0[2].get("dialect") is not None for d0 in info["direct"])
+                            and all(ar == t for (p, t), ar in zip(sc.sql, info["as_read"])))
+                if eligible and (n_hist < max_hist or si < 12):
+                    n_hist += 1
+                    info["history"] = history(ctx, sc, root, kw, rng)
+        ctx.coverage_extra["histories"] = n_hist
+        ctx.coverage_extra["t_impl_scenarios_s"] = round(coq.now() - t_impl0, 1)
+        # ---- monitors that need no Coq
+        t1 = coq.now()
+        ladder(ctx, os.path.join(base_tmp, "ladder"))
+        ctx.coverage_extra["t_ladder_s"] = round(coq.now() - t1, 1)
+        string_monitor(ctx)
+    finally:
+        if coq_thread is not None:
+            coq_thread.join()
+    if not coq_ok:
+        return
+    if coq_err:
+        raise coq_err[0]
+
+    # ---- compare with the model
+    compare_units()
+    reported = set()
+
+    def bad(what, detail):
+        if what not in reported:
+            reported.add(what)
+            ctx.broken_obligation("correspondence %s" % what, detail)
+    hyp_ok = 0
+    for sc, info in zip(scs, infos):
+        runs, iters, wf, loaded = B[info["h"]]
+        hyp_ok += 1 if wf else 0
+        mres = [dec_zres(r, dflt_texts) for r in runs]
+        by_text = {(p, t): m for (p, t), m in zip(info["mfiles"], mres)}
+        for (p, t), m, d0 in zip(sc.sql, mres, info["direct"]):
+            nt = m[0] == "err" or covers_two_layers(sc, p)
+            ctx.case((sc.label, repr(sc.describe()["files"]), p) if nt else None, bucket="scenario-file:" + (m[0] if m[0] == "err" else "ok"),
+                     sample={"scenario": sc.label, "file": "/".join(p), "model": m[0], "impl": d0[0]} if nt and len(ctx.samples) < 5 and m[0] == "ok" and sc.label not in [s.get("scenario") for s in ctx.samples if isinstance(s, dict)] else None)
+            if not same_outcome(m, d0[:2], model_to_py):
+                bad("Model.Config.file_config vs FluffConfig.from_path + process_raw_file_for_config",
+                    {"input": sc.describe(), "file": "/".join(p),
+                     "difference": first_diff(model_to_py(m[1]), d0[1]) if m[0] == "ok" and d0[0] == "ok" else {"model": m[:2] if m[0] == "err" else "ok", "impl": d0[0:3:2] if d0[0] == "err" else "ok"}})
+        if info["via_linter"] is not None:
+            for (p, t), ar, r in zip(sc.sql, info["as_read"], info["via_linter"]):
+                m = by_text[(p, ar)]
+                ctx.case(None, bucket="scenario-file-via-linter")
+                if r[0] == "nodialect":
+                    continue
+                if not same_outcome(m, r, model_to_py):
+                    bad("Model.Config.file_config vs Linter.load_raw_file_and_config",
+                        {"input": sc.describe(), "file": "/".join(p),
+                         "difference": first_diff(model_to_py(m[1]), r[1]) if m[0] == "ok" and r[0] == "ok" else {"model": m[:2] if m[0] == "err" else "ok", "impl": r}})
+        for (p, o), mi, gi in zip(info["queries"], iters, info["iters"]):
+            mm = [tuple(dec_ot(x) for x in (q if isinstance(q, list) else [])) for q in mi]
+            ctx.case(None, bucket="iter_intermediate_paths")
+            if mm != gi:
+                bad("Model.Config.iter_intermediate_paths vs helpers.file.iter_intermediate_paths",
+                    {"input": {"inner": "/".join(p), "outer": "/".join(o), "dirs": sorted("/".join(d) for d in sc.dirs)}, "model": mm, "impl": gi})
+        for (d, fname), ml, il in zip(info["cfgfiles"], loaded, info["loaded"]):
+            ctx.case(None, bucket="load_file:" + ("toml" if fname == "pyproject.toml" else "ini"))
+            if not same_outcome(dec_res(ml), il, py_tree):
+                bad("Model.Config.load_file vs %s" % ("load_toml_file_config" if fname == "pyproject.toml" else "load_ini_string"),
+                    {"input": sc.dirs[d][fname][1], "model": dec_res(ml), "impl": il})
+        if "history" in info:
+            check_history(ctx, sc, info, by_text, bad)
+    ctx.coverage_extra["scenarios"] = len(scs)
+    ctx.coverage_extra["scenario_sql_files"] = sum(len(sc.sql) for sc in scs)
+    ctx.coverage_extra["theorem_hypotheses_checked_true"] = hyp_ok
+    if hyp_ok != len(scs):
+        bad("generated inputs satisfy the hypotheses of C27_precedence (fs_wfb / wfdb)", {"ok": hyp_ok, "of": len(scs)})
+
+
+# ------------------------------------------------------------------------------------------------------------------------
+# monitor 2: sequences of files through the real Linter.lint_paths, several orders, one process, warm caches
+
+CLI_FLAGS = {"dialect": "--dialect", "rules": "--rules", "exclude_rules": "--exclude-rules", "templater": "--templater"}
+
+
+def history(ctx, sc, root, kw, rng):
+    from sqlfluff.core import FluffConfig, Linter
+    paths = [spell(root, sc.cwd, p, rng) for p, _t in sc.sql]
+    abs_of = {os.path.abspath(x): i for i, x in enumerate(paths)}
+    orders = [list(paths), list(reversed(paths))]
+    sh = list(paths)
+    rng.shuffle(sh)
+    orders.append(sh)
+    if any(tuple(p[:len(sc.cwd)]) == tuple(sc.cwd) for p, _t in sc.sql):
+        orders.append(["."])
+    runs = []
+    clear_caches()
+    linter = Linter(config=FluffConfig.from_root(require_dialect=False, **kw))
+    for order in orders:
+        with Capture() as cap:
+            err = None
+            files = {}
+            try:
+                res = linter.lint_paths(tuple(order))
+                files = {os.path.abspath(f.path): viol_sig(f) for d in res.paths for f in d.files}
+            except Exception as e:  # noqa: BLE001
+                err = (exc_kind(e), repr(e)[:300])
+        runs.append({"order": order, "events": cap.events, "violations": files, "err": err})
+    solo = {}
+    for x in paths:
+        clear_caches()
+        try:
+            r = Linter(config=FluffConfig.from_root(require_dialect=False, **kw)).lint_paths((x,))
+            solo[os.path.abspath(x)] = viol_sig(r.paths[0].files[0]) if r.paths[0].files else None
+        except Exception as e:  # noqa: BLE001
+            solo[os.path.abspath(x)] = ("err", exc_kind(e))
+    out = {"runs": runs, "solo": solo, "abs_of": abs_of, "cli": None}
+    # the same sequence through the command line
+    if all(k in CLI_FLAGS for k in sc.overrides) and rng.random() < 0.5:
+        from click.testing import CliRunner
+        from sqlfluff.cli.commands import lint
+        args = list(paths) + ["--format", "json"]
+        for k, v in sc.overrides.items():
+            if dec(v) is not None:
+                args += [CLI_FLAGS[k], str(dec(v))]
+        if "extra_config_path" in kw:
+            args += ["--config", kw["extra_config_path"]]
+        if sc.ignore_local:
+            args += ["--ignore-local-config"]
+        clear_caches()
+        r = CliRunner().invoke(lint, args)
+        try:
+            data = json.loads(r.stdout)
+            out["cli"] = {os.path.abspath(rec["filepath"]): sorted((v["code"], v["start_line_no"], v["start_line_pos"], v["description"][:60]) for v in rec["violations"])
+                          for rec in data}
+        except Exception:  # noqa: BLE001
+            out["cli"] = {"unparsable": r.output[:500], "exit": r.exit_code}
+        out["cli_args"] = args
+    return out
+
+
+def predicted_lt05(model_cfg, text):
+    """line numbers LT05 must report, from the model's effective config (None = no prediction)"""
+    core = model_cfg.get("core")
+    if not isinstance(core, dict):
+        return None
+    mll, rules, excl = core.get("max_line_length"), core.get("rules"), core.get("exclude_rules")
+    if not isinstance(mll, int) or isinstance(mll, bool) or isinstance(rules, dict) or isinstance(excl, dict):
+        return None
+    allow = split_csv(rules) if isinstance(rules, str) else []
+    deny = split_csv(excl) if isinstance(excl, str) else []
+    if any(x not in ("all", "LT05", "CP01", "LT01", "LT02") for x in allow + deny):
+        return None
+    enabled = ((not allow) or "all" in allow or "LT05" in allow) and "LT05" not in deny
+    if not enabled or mll <= 0:
+        return set()
+    ll = model_cfg.get("rules", {}).get("layout.long_lines", {}) if isinstance(model_cfg.get("rules"), dict) else {}
+    skip_comments = isinstance(ll, dict) and ll.get("ignore_comment_lines") is True
+    out = set()
+    for i, line in enumerate(text.split("\n"), 1):
+        if len(line) > mll and not (skip_comments and line.lstrip().startswith("--")):
+            out.add(i)
+    return out
+
+
+def check_history(ctx, sc, info, by_text, bad):
+    hist = info["history"]
+    idx_of = hist["abs_of"]
+    models = [by_text[(p, ar)] for (p, _t), ar in zip(sc.sql, info["as_read"])]
+    direct_ok = [same_outcome(m, d0[:2], model_to_py) for m, d0 in zip(models, info["direct"])]
+    for run_i, r in enumerate(hist["runs"]):
+        ctx.case(("hist", sc.label, repr(sc.describe()["files"]), repr(r["order"])), bucket="history-run",
+                 sample={"scenario": sc.label, "order": r["order"], "files_linted": len(r["violations"])} if run_i == 2 and len(r["violations"]) > 2 else None)
+        if r["err"] is not None:
+            ctx.violation("history-run-raised", "lint_paths raised although every file's config loads on its own",
+                          {"input": sc.describe(), "order": r["order"], "error": r["err"]}, attrs={"error": r["err"][0]})
+            continue
+        last_loaded = None
+        for kind, ap, cfg, _raw in r["events"]:
+            if kind == "load":
+                last_loaded = ap
+            who = ap if ap is not None else last_loaded
+            if who not in idx_of:
+                continue   # a file found by directory discovery that is not in the scenario list cannot happen; be safe
+            i = idx_of[who]
+            m = models[i]
+            ctx.case(None, bucket="history-config-" + kind)
+            if direct_ok[i] and not same_outcome(m, ("ok", cfg), model_to_py):
+                others = [j for j, mj in enumerate(models) if j != i and mj[0] == "ok" and tree_eq(model_to_py(mj[1]), cfg, False)]
+                ctx.violation("history-dependence", "inside a sequence a file is linted with a config that differs from its own config" +
+                              (" (it is the config of another file of the run)" if others else ""),
+                              {"input": sc.describe(), "order": r["order"], "file": "/".join(sc.sql[i][0]), "stage": kind,
+                               "difference": first_diff(model_to_py(m[1]), cfg) if m[0] == "ok" else m},
+                              attrs={"stage": kind, "equals_other_file": bool(others)})
+        for ap, sig in r["violations"].items():
+            if ap in hist["solo"] and hist["solo"][ap] != sig:
+                ctx.violation("sequence-changes-result", "a file's violations differ between linting it alone and in a sequence",
+                              {"input": sc.describe(), "order": r["order"], "file": os.path.relpath(ap, info["root"]), "alone": hist["solo"][ap], "in_sequence": sig},
+                              attrs={"order_index": run_i})
+    # the effective config is what the linter really uses: LT05 lines predicted from the model's effective values
+    for i, ((p, t), m) in enumerate(zip(sc.sql, models)):
+        ap = [a for a, j in idx_of.items() if j == i][0]
+        sig = hist["solo"].get(ap)
+        if m[0] != "ok" or not isinstance(sig, list):
+            continue
+        want = predicted_lt05(model_to_py(m[1]), t)
+        if want is None:
+            continue
+        got = {ln for (code, ln, _pos, _d) in sig if code == "LT05"}
+        ctx.case(("lt05", sc.label, p, repr(sorted(want))) if want else None, bucket="e2e-lt05:" + ("flagged" if want else "clean"))
+        if got != want:
+            ctx.violation("effective-config-not-used", "LT05 line set differs from the one predicted from the effective max_line_length/rules",
+                          {"input": sc.describe(), "file": "/".join(p), "predicted_lines": sorted(want), "reported_lines": sorted(got),
+                           "effective": {k: model_to_py(m[1])["core"].get(k) for k in ("max_line_length", "rules", "exclude_rules")}},
+                          attrs={"more_reported": bool(got - want), "fewer_reported": bool(want - got)})
+    if hist["cli"] is not None:
+        ctx.case(("cli", sc.label, repr(hist.get("cli_args"))), bucket="cli-run")
+        if "unparsable" in hist["cli"]:
+            ctx.violation("cli-output", "sqlfluff lint --format json gave no JSON for a hierarchy the API lints", {"input": sc.describe(), "args": hist["cli_args"], "output": hist["cli"]})
+        else:
+            for ap, sig in hist["cli"].items():
+                if ap in hist["solo"] and hist["solo"][ap] != sig:
+                    ctx.violation("cli-vs-api", "the command line lints a file with a different effective configuration than the API",
+                                  {"input": sc.describe(), "args": hist["cli_args"], "file": os.path.relpath(ap, info["root"]), "cli": sig, "api": hist["solo"][ap]})
+
+
+# ------------------------------------------------------------------------------------------------------------------------
+# monitor 3: strings (Linter.lint_string / parse_string): inline directives count for that string only
+
+def string_monitor(ctx):
+    from sqlfluff.core import FluffConfig, Linter
+    long_line = "SELECT a FROM t WHERE a = 1 AND b = 2 AND c = 3 AND d = 4 AND e = 5 AND f = 6\n"   # 77 chars
+    cases = [
+        ("", {"LT05"}),
+        ("-- sqlfluff:max_line_length:100\n", set()),
+        ("-- sqlfluff:rules:CP01\n", set()),                     # F9: the rule pack must follow the inline directive
+        ("-- sqlfluff:exclude_rules:LT05\n", set()),
+        ("-- sqlfluff:max_line_length:60\n", {"LT05"}),
+        ("--sqlfluff:rules:LT05\n", {"LT05"}),
+    ]
+    for ov in ({"dialect": "ansi", "max_line_length": 70}, {"dialect": "ansi", "max_line_length": 70, "rules": "LT05,CP01"}):
+        linter = Linter(config=FluffConfig(overrides=ov))
+        snapshot = norm_impl(linter.config._configs)
+        seq = cases + list(reversed(cases)) + [cases[0]]
+        for k, (pre, want) in enumerate(seq):
+            lf = linter.lint_string(pre + long_line, fname="s%d.sql" % k)
+            got = {v.rule_code() for v in lf.violations} & {"LT05"}
+            ctx.case(("string", repr(ov), k, pre), bucket="lint_string")
+            if got != want:
+                ctx.violation("string-inline", "lint_string: the inline directives of the string are not what it is linted with (or an earlier string's are)",
+                              {"input": {"overrides": ov, "text": pre + long_line, "position_in_sequence": k}, "LT05_reported": bool(got), "LT05_expected": bool(want)},
+                              attrs={"directive": pre.strip() or "<none>", "expected": bool(want)})
+            if not tree_eq(norm_impl(linter.config._configs), snapshot, True):
+                ctx.violation("string-inline-leak", "lint_string changed the Linter's own config (inline directives leaked)",
+                              {"input": {"overrides": ov, "text": pre + long_line}, "difference": first_diff(snapshot, norm_impl(linter.config._configs))})
+                snapshot = norm_impl(linter.config._configs)
+            ps = linter.parse_string(pre + long_line, fname="p%d.sql" % k)
+            eff = ps.config.get("max_line_length")
+            want_mll = 100 if "max_line_length:100" in pre else 60 if "max_line_length:60" in pre else 70
+            if eff != want_mll:
+                ctx.violation("string-inline", "parse_string: effective max_line_length is not (inline directive, else the override)",
+                              {"input": {"overrides": ov, "text": pre + long_line}, "got": eff, "want": want_mll}, attrs={"directive": pre.strip() or "<none>", "expected": want_mll})
